@@ -26,7 +26,8 @@ RULE = ("instances of 8 registered RegDom, 4 frozen IceRegDom, a TymeDom and an 
         "stream interleaves malformed inputs (truncation at one or at every prefix length, trailing bytes, the record twice, a "
         "non-dict top-level value; for json, cbor and mgpk), decodes of the same record twice (bytes / bytearray / memoryview / "
         "str; results equal, distinct, sharing nothing; one changed in place, then a third decode) with clean round trips of other classes before the case's own round "
-        "trip; non-trivial = a nested "
+        "trip; four classes with their own _dictify/_datify hook pair (wire form differs from the field dict; non-frozen strict "
+        "and tolerant, TymeDom-based, frozen) round-trip in the history steps; non-trivial = a nested "
         "object, a non-ASCII string, an int beyond 2^53 or a list/dict field")
 MODELLED = ["json / cbor2 / msgpack as an abstract codec with dec (enc v) = Some v on the common domain (checked per case: the "
             "library's decode of its own encoding must equal _asdict())",
@@ -204,6 +205,47 @@ class C28UBag(TymeDom):
 class C28UIceBag(IceTymeDom):
     _origin: C28TPoint = None
     _s: str = None
+
+# classes with their own _dictify / _datify hook pair: the dict (wire) form differs from the field dict
+class _SpanHooks:
+    def _dictify(self):
+        return {"lo": self.lo, "len": self.hi - self.lo}
+
+    @classmethod
+    def _datify(cls, d):
+        return cls(lo=d["lo"], hi=d["lo"] + d["len"])          # strict: the wire form must carry "len"
+
+@registerify
+@dataclass
+class C28Span(_SpanHooks, RegDom):
+    lo: int = 0
+    hi: int = 0
+
+@registerify
+@dataclass
+class C28LaxSpan(RegDom):
+    lo: int = 0
+    hi: int = 0
+
+    def _dictify(self):
+        return {"lo": self.lo, "len": self.hi - self.lo}
+
+    @classmethod
+    def _datify(cls, d):
+        return cls(lo=d.get("lo", 0), hi=d.get("lo", 0) + d.get("len", 0))      # tolerant
+
+@namify
+@registerify
+@dataclass
+class C28TymeSpan(_SpanHooks, TymeDom):
+    lo: int = 0
+    hi: int = 0
+
+@registerify
+@dataclass(frozen=True)
+class C28IceSpan(_SpanHooks, IceRegDom):
+    lo: int = 0
+    hi: int = 0
 '''
 # class number -> (name stem, [(field, dataclass number or None)])
 SCHEMA = []
@@ -236,8 +278,13 @@ SCHEMA += [("UMid", [("_leaf", 0), ("_v", None), ("w", None)]),
            ("UIce", [("_leaf", 8), ("_l", None), ("_m", None)]),
            ("UBag", [("_origin", 12), ("_n", None), ("value", None)]),
            ("UIceBag", [("_origin", 12), ("_s", None)])]
-NCLS = len(SCHEMA)
-FROZEN = {8, 9, 10, 11, 14, 16, 19, 24, 26}
+NCLS = len(SCHEMA)       # the classes whose round trip is also evaluated by the Coq model
+# 27..30: classes with a _dictify/_datify hook pair (wire form {lo, len}); they take part in the history streams and the
+# direct oracle only (a hook is arbitrary code; the model knows asdict / fields-driven datify)
+HOOKED = [NCLS, NCLS + 1, NCLS + 2, NCLS + 3]
+SCHEMA += [("Span", [("lo", None), ("hi", None)]), ("LaxSpan", [("lo", None), ("hi", None)]),
+           ("TymeSpan", [("lo", None), ("hi", None)]), ("IceSpan", [("lo", None), ("hi", None)])]
+FROZEN = {8, 9, 10, 11, 14, 16, 19, 24, 26, NCLS + 3}
 _classes = None
 
 
@@ -263,6 +310,7 @@ def classes():
         out += [Bag, IceBag]
         out += [m.C28LBag, m.C28NBag, m.C28LIce, m.C28TBag2, m.C28Holder, m.C28LCan]
         out += [m.C28UMid, m.C28UIce, m.C28UBag, m.C28UIceBag]
+        out += [m.C28Span, m.C28LaxSpan, m.C28TymeSpan, m.C28IceSpan]
         _classes = out
     return _classes
 
@@ -309,7 +357,7 @@ def history_classes(early):
         first = [bool(type(y) is outer and y.leaf is None and y.v == 1) for y in first]
     exec(compile(HIST_INNER.replace("{N}", N), name, "exec"), m.__dict__)
     inner = getattr(m, "C28HInner" + N)
-    cs = [None] * NCLS
+    cs = [None] * len(SCHEMA)
     cs[4], cs[5] = inner, outer
     return cs, first
 
@@ -609,10 +657,19 @@ def rand_typed(rng):
     return rand_obj(rng, c, 0.0, 0.0)
 
 
+def hooked_obj(rng):
+    lo = rng.randint(-50, 50)
+    return obj(rng.choice(HOOKED), lo=["i", lo], hi=["i", lo + rng.randint(0, 40)])
+
+
 def seq_cases(rng, k):
     out = []
     for i in range(k):
         steps = []
+        if rng.random() < 0.5:
+            steps.append(["rt", hooked_obj(rng)])
+        if rng.random() < 0.2:
+            steps.append(["twice", rng.randrange(3), hooked_obj(rng), "bytes"])
         for _ in range(rng.choice([1, 2, 3, 5])):
             r = rng.random()
             t = rand_typed(rng)
@@ -634,6 +691,13 @@ def seq_cases(rng, k):
 
 
 def directed_seqs():
+    hooks = [{"obj": obj(0, a=["i", 1]), "seq": [["rt", obj(c, lo=["i", 2], hi=["i", 9])], ["rt", obj(c, lo=["i", -3], hi=["i", -3])],
+                                                  ["twice", 0, obj(c, lo=["i", 2], hi=["i", 9]), "bytes"],
+                                                  ["bad", 1, obj(c, lo=["i", 2], hi=["i", 9]), "trunc", 3]]} for c in HOOKED]
+    return hooks + _directed_seqs()
+
+
+def _directed_seqs():
     leaf = obj(0, a=["i", 5], b=["s", "é"])
     mid = obj(1, leaf=leaf, v=["l", [["i", 1], ["f", (2.5).hex()], ["n"]]])
     tb = obj(13, leaf=obj(12, a=["i", 1]), v=["d", [["k", ["i", 2]]]])
@@ -991,7 +1055,7 @@ def _tree(t, D):
 
 COQ_HEADER = ["Definition SCH : Dom.schema := %s." % coq_list(
     [coq_list([f"({_str(f)}, {'Dom.TOther' if ft is None else f'Dom.TDom {ft}'})" for f, ft in fs], "Dom.str * Dom.ftype")
-     for _, fs in SCHEMA], "list (Dom.str * Dom.ftype)")]
+     for _, fs in SCHEMA[:NCLS]], "list (Dom.str * Dom.ftype)")]
 
 
 def to_coq(case, obs):
